@@ -814,6 +814,114 @@ def cache_correspondence(ctx, d, usable):
         ctx.log(f"correspondence cached-solver: {len(diffs)} disagreements, e.g. {lines[i]} model={trimmed[i]} impl={impl[i]}")
 
 
+def extract_amg_defaults(d):
+    """G2: how `setup_amg_options` obtains its default dictionary: a literal / copy built afresh in every call ('fresh') or a
+    module-level object bound by reference ('shared'); plus the default keys"""
+    W = d.measure.wasserstein
+    try:
+        fn = ast.parse(textwrap.dedent(inspect.getsource(W.VariationalWassersteinDistance.setup_amg_options))).body[0]
+    except (OSError, TypeError, SyntaxError, IndexError):
+        return "shared", [], "source unavailable"
+    binding, keys, why = "shared", [], "no assignment to self.amg_options found"
+    for n in ast.walk(fn):
+        if isinstance(n, ast.Assign) and any(isinstance(t, ast.Attribute) and t.attr == "amg_options" for t in n.targets):
+            v = n.value
+            if isinstance(v, ast.Dict):
+                binding, why = "fresh", "dict literal"
+                keys = [k.value for k in v.keys if isinstance(k, ast.Constant)]
+            elif isinstance(v, ast.Call) and ((isinstance(v.func, ast.Name) and v.func.id == "dict") or
+                                              (isinstance(v.func, ast.Attribute) and v.func.attr in ("copy", "deepcopy"))):
+                binding, why = "fresh", "copy of " + ast.unparse(v)
+                src = v.args[0] if v.args else (v.func.value if isinstance(v.func, ast.Attribute) else None)
+                obj = getattr(W, src.id, None) if isinstance(src, ast.Name) else None
+                keys = list(obj.keys()) if isinstance(obj, dict) else []
+            else:
+                binding, why = "shared", "bound to " + ast.unparse(v)
+                obj = getattr(W, v.id, None) if isinstance(v, ast.Name) else None
+                keys = list(obj.keys()) if isinstance(obj, dict) else []
+            break
+    return binding, keys, why
+
+
+def emit_options(binding, keys) -> str:
+    ks = [re.sub(r"\W", "_", str(k)) for k in keys] or ["none"]
+    return "\n".join([
+        "import DarsiaModel.Options", "namespace Darsia.Gen", "",
+        "/-- keys of the default AMG options in `setup_amg_options` -/",
+        "inductive AmgKey\n  | " + " | ".join(ks) + "\n  deriving DecidableEq, Repr", "",
+        "def amgDefaultKeys : List AmgKey := [" + ", ".join("." + k for k in ks) + "]", "",
+        "/-- how `setup_amg_options` obtains the defaults: built afresh in every call, or a module-level object bound by reference -/",
+        f"def amgBinding : Options.Binding := .{binding}", "", "end Darsia.Gen", ""])
+
+
+def _resolved(w):
+    """the options a solver object resolved (documented attributes), without callables / history lists"""
+    amg = getattr(w, "amg_options", None)
+    so = {k: v for k, v in getattr(w, "solver_options", {}).items() if k not in ("M", "residuals")}
+    return (None if amg is None else repr(sorted(amg.items(), key=lambda kv: str(kv[0]))), repr(sorted(so.items(), key=lambda kv: str(kv[0]))))
+
+
+def options_isolation(ctx, d):
+    """cross-object state in one process: [default object B solves] -> [object A with user options solves] -> [fresh default
+    object B' solves the same system]. B' must resolve the same options as B, return the same solution and satisfy the full system;
+    the caller's option dictionaries must not be mutated. All back-ends, both orders of (A, B)."""
+    import copy
+
+    shape = (5, 4)
+    user_sets = {
+        "amg": dict(amg_options={"max_levels": 1, "coarse_solver": "jacobi", "max_coarse": 3}, linear_solver_options={"atol": 1e-3, "maxiter": 3}),
+        "cg": dict(amg_options={"max_levels": 1, "coarse_solver": "jacobi", "max_coarse": 3}, linear_solver_options={"rtol": 1e-2, "maxiter": 2}),
+        "direct": dict(linear_solver_options={"rtol": 1e-2}),
+    }
+    w0 = call(make_solver, d, shape, "pressure", "direct")
+    if isinstance(w0, Raised):
+        return
+    nf, nc = int(w0.grid.num_faces), int(w0.grid.num_cells)
+    W = random_weights(ctx.rng, nf)
+    rhs = random_rhs(ctx.rng, nf, nc)
+    A = full_matrix(w0, W)
+
+    def solve_default(sv):
+        w = call(make_solver, d, shape, "pressure", sv)
+        if isinstance(w, Raised):
+            return w
+        r = call(w.linear_solve, A.copy(), rhs.copy())
+        return r if isinstance(r, Raised) else (np.asarray(r[0], dtype=float), _resolved(w), w)
+
+    for a_solver in ("cg", "amg", "direct"):
+        for b_solver in ("amg", "cg", "direct"):
+            ctx.count(("options-isolation", a_solver, b_solver))
+            before = solve_default(b_solver)
+            user = copy.deepcopy(user_sets[a_solver])
+            snapshot = copy.deepcopy(user)
+            wa = call(make_solver, d, shape, "pressure", a_solver, **user)
+            if not isinstance(wa, Raised):
+                call(wa.linear_solve, A.copy(), rhs.copy())
+            rp = {"kind": "options", "a_solver": a_solver, "b_solver": b_solver, "user": repr(snapshot)}
+            if repr(user) != repr(snapshot):
+                ctx.fail(f"C08:options:caller-dict-mutated:linear_solver={a_solver}",
+                         f"constructing / solving with linear_solver={a_solver} mutated the caller's option dictionaries: {snapshot!r} -> {user!r}", rp)
+            after = solve_default(b_solver)
+            if isinstance(before, Raised) or isinstance(after, Raised):
+                if repr(before) != repr(after) if isinstance(before, Raised) and isinstance(after, Raised) else True:
+                    ctx.fail(f"C08:options:leak:after={a_solver}:default={b_solver}:raises",
+                             f"a default {b_solver} solver behaves differently after an object with user options was used: {before!r} vs {after!r}", rp)
+                continue
+            xb, ob, _ = before
+            xa, oa, wb = after
+            if oa != ob:
+                ctx.fail(f"C08:options:leak:after={a_solver}:default={b_solver}:resolved-options",
+                         f"a fresh default {b_solver} solver resolves different options after an object with user options ({snapshot!r}) was used in the "
+                         f"same process: {ob} -> {oa}", rp)
+            res = exact_residual(A, xa, rhs) if np.all(np.isfinite(xa)) else None
+            r2 = float("inf") if res is None else float(sum(v * v for v in res)) ** 0.5
+            tol = tolerances(wb, A, W, rhs, xb, b_solver)
+            if not r2 <= tol * (float(np.sqrt(A.shape[0])) if b_solver == "direct" else 1.0) or not np.allclose(xa, xb, rtol=1e-5, atol=1e-8 * float(np.abs(xb).max())):
+                ctx.fail(f"C08:options:leak:after={a_solver}:default={b_solver}:solution",
+                         f"a fresh default {b_solver} solver returns a different / wrong solution after an object with user options ({snapshot!r}) was used: "
+                         f"residual {r2:.3e} (tol {tol:.3e}), max difference to the same solve done before {float(np.abs(xa - xb).max()):.3e}", rp)
+
+
 def lumping_probe(ctx, d):
     """option lumping=False (a non-diagonal face mass matrix would break the diagonal-only Schur complement of the reduced
     formulations): currently refused at construction; if it ever constructs, every formulation must still solve darcy_init"""
@@ -893,6 +1001,9 @@ def run(ctx):
     voc = vocabulary(d)
     construct, accept = tabulate(d, voc)
     ctx.write_gen("Dispatch", emit(voc, construct, accept))
+    binding, okeys, owhy = extract_amg_defaults(d)
+    ctx.write_gen("OptionsGen", emit_options(binding, okeys))
+    ctx.cov["amg_defaults"] = {"binding": binding, "keys": okeys, "evidence": owhy}
     ctx.cov["generated_tables"] = {"vocabulary": voc["info"]["source"], "formulations": voc["forms"], "solvers": voc["solvers"],
                                    "documented": voc["documented_f"], "accept": {f"{f}|{s}": repr(v) for (f, s), v in accept.items()}}
     ctx.prove("C08")
@@ -905,6 +1016,7 @@ def run(ctx):
                [(a, b, c) for a in range(1, 4) for b in range(1, 3) for c in range(1, 3)] + [(7, 7), (5, 5, 5), (1, 7), (5, 1, 5)]
         shapes = must + [ctx.rng.choice(allshapes) for _ in range(10)]
     lumping_probe(ctx, d)
+    options_isolation(ctx, d)
     cache_correspondence(ctx, d, usable)
     surgery_correspondence(ctx, d, shapes)
     small = [(1,), (2,), (5,), (1, 1), (2, 2), (1, 3), (3, 2), (2, 1, 2), (2, 2, 2)]
